@@ -280,6 +280,90 @@ def pandas_variants(ctx, n):
                              observed={which: got}, expected=ref, tags={"function": name, "variant": "pandas"})
 
 
+def extras(ctx, n):
+    """functions outside the reduce/preserve registry that the property anchors: isotonic_fit (xarray inputs whose
+    dims are stored in different orders), cdf_envelope (threshold dim in any position), flip_flop_index (extra dims)"""
+    from scores.processing import isotonic_fit
+    from scores.processing.cdf import cdf_envelope
+    from scores.continuous import flip_flop_index
+    rng = ctx.rng
+
+    def arr(dims, sizes, pool):
+        shape = [sizes[d] for d in dims]
+        data = np.array([rng.choice(pool) for _ in range(int(np.prod(shape)))], dtype=float).reshape(shape)
+        return xr.DataArray(data, dims=list(dims), coords={d: list(range(sizes[d])) for d in dims})
+
+    def relay(a):
+        dims = list(a.dims)
+        rng.shuffle(dims)
+        t = a.transpose(*dims)
+        t = t.copy(data=np.ascontiguousarray(t.values).reshape(t.shape))
+        for d in dims:
+            if rng.random() < 0.5 and d != "threshold" and d != "samp":
+                perm = list(range(t.sizes[d]))
+                rng.shuffle(perm)
+                t = t.isel({d: perm})
+        return t.copy(deep=True)
+
+    for _ in range(n):
+        m = rng.choice([2, 3])
+        sizes = {"a": m, "b": m, "threshold": 4, "samp": 4}     # equal sizes: a positional mix-up passes every shape check
+        # --- isotonic_fit
+        f = arr(["a", "b"], sizes, [0.0, 1.0, 2.0, 3.0, 4.0, 5.0, 6.0, 7.0])
+        o = arr(["a", "b"], sizes, [0.0, 0.5, 1.0, 2.0, 4.0, float("nan")])
+        w = arr(["a", "b"], sizes, [0.5, 1.0, 2.0, 4.0])
+        desc = {"function": "isotonic_fit", "fcst": core.canon(f.values.tolist()), "obs": core.canon(o.values.tolist()),
+                "weight": core.canon(w.values.tolist())}
+        ctx.case("extras", desc)
+        ctx.tag("variant:isotonic-relayout")
+        try:
+            with np.errstate(all="ignore"):
+                base = isotonic_fit(f, o, weight=w)
+                var = isotonic_fit(relay(f), relay(o), weight=relay(w))
+            for key in ("fcst_sorted", "fcst_counts", "regression_values"):
+                x, y = np.asarray(base[key], dtype=float), np.asarray(var[key], dtype=float)
+                if x.shape != y.shape or not all(core.close_ff(p, q) for p, q in zip(x, y)):
+                    ctx.fail("extras", "property", "isotonic_fit", "value-depends-on-layout", desc, observed={key: y.tolist()},
+                             expected={key: x.tolist()}, tags={"function": "isotonic_fit", "variant": "relayout"})
+                    break
+        except Exception as ex:
+            ctx.fail("extras", "property", "isotonic_fit", "exception:" + core.exc_class(ex), desc, observed=str(ex)[:200],
+                     expected="a fit", tags={"function": "isotonic_fit", "variant": "relayout"})
+        # --- cdf_envelope: threshold dim in any position
+        c = arr(["a", "threshold", "b"], sizes, [0.0, 0.25, 0.5, 0.75, 1.0, float("nan")])
+        desc = {"function": "cdf_envelope", "cdf": core.canon(c.values.tolist()), "dims": list(c.dims)}
+        ctx.case("extras", desc)
+        ctx.tag("variant:cdf-envelope-relayout")
+        try:
+            base = cdf_envelope(c, "threshold")
+            c2 = relay(c)
+            var = cdf_envelope(c2, "threshold")
+            d1, s1, v1 = R.to_labelled(base)
+            d2, s2, v2 = R.to_labelled(var)
+            if d1 != d2 or s1 != s2 or not all(core.close_ff(p, q) for p, q in zip(v1, v2)):
+                ctx.fail("extras", "property", "cdf_envelope", "value-depends-on-layout", dict(desc, variant_dims=list(c2.dims)),
+                         observed=v2, expected=v1, tags={"function": "cdf_envelope", "variant": "relayout"})
+        except Exception as ex:
+            ctx.fail("extras", "property", "cdf_envelope", "exception:" + core.exc_class(ex), desc, observed=str(ex)[:200],
+                     expected="envelopes", tags={"function": "cdf_envelope", "variant": "relayout"})
+        # --- flip_flop_index with extra dims
+        x = arr(["a", "samp", "b"], sizes, [0.0, 1.0, 2.0, 5.0, -3.0])
+        desc = {"function": "flip_flop_index", "data": core.canon(x.values.tolist()), "dims": list(x.dims)}
+        ctx.case("extras", desc)
+        ctx.tag("variant:flip-flop-relayout")
+        try:
+            base = flip_flop_index(x, "samp")
+            var = flip_flop_index(relay(x), "samp")
+            d1, s1, v1 = R.to_labelled(base)
+            d2, s2, v2 = R.to_labelled(var)
+            if d1 != d2 or s1 != s2 or not all(core.close_ff(p, q) for p, q in zip(v1, v2)):
+                ctx.fail("extras", "property", "flip_flop_index", "value-depends-on-layout", desc, observed=v2, expected=v1,
+                         tags={"function": "flip_flop_index", "variant": "relayout"})
+        except Exception as ex:
+            ctx.fail("extras", "property", "flip_flop_index", "exception:" + core.exc_class(ex), desc, observed=str(ex)[:200],
+                     expected="an index", tags={"function": "flip_flop_index", "variant": "relayout"})
+
+
 def correspondence(ctx):
     """layout tie of the model: Lean scoreEval on a pointwise array handed over in a PERMUTED dimension order
     equals the implementation's aggregate (Arr.get is by name, not by position)"""
@@ -328,11 +412,15 @@ def correspondence(ctx):
 def oracle(ctx, boost):
     fanout(ctx, ctx.n(1, 6) * (3 if boost else 1))
     pandas_variants(ctx, ctx.n(40, 400))
+    extras(ctx, ctx.n(15, 150) * (3 if boost else 1))
 
 
 def replay(ctx, payload):
     c = core.Ctx("C04", "quick", payload.get("seed", 0))
     site = payload.get("site", "")
+    if site in ("isotonic_fit", "cdf_envelope", "flip_flop_index"):
+        extras(c, 60)
+        return any(f["site"] == site for f in c.failures)
     if site.startswith("pandas."):
         pandas_variants(c, 200)
         return any(f["site"] == site for f in c.failures)
